@@ -641,6 +641,22 @@ func c20prelude() []*c20case {
 		{Kind: "decode-msg", Hex: ""}, {Kind: "decode-burn", Hex: ""},
 		{Kind: "query-nil", TypeURL: "Roles"}, {Kind: "query-nil", TypeURL: "TokenPairs"},
 	}})
+	// extreme burn limits set by the token controller (the handler takes any integer), then ordinary deposits: whatever
+	// arithmetic relates amount and limit must not leave the 256 bits the SDK's integers allow
+	for _, lv := range []string{"-" + sim.Max256.String(), "-" + sim.Two255.String(), sim.Max256.String(), "-1"} {
+		ext := &types.MsgSetMaxBurnAmountPerMessage{From: sim.Acct(3), LocalToken: "uusdc", Amount: sim.Int(sim.Big(lv))}
+		ebz, _ := proto.Marshal(ext)
+		one := &types.MsgDepositForBurn{From: sim.Acct(0), Amount: sim.Int(sim.Big("1")), DestinationDomain: 0, MintRecipient: mr, BurnToken: "uusdc"}
+		obz, _ := proto.Marshal(one)
+		big1 := &types.MsgDepositForBurnWithCaller{From: sim.Acct(0), Amount: sim.Int(sim.Max256), DestinationDomain: 0, MintRecipient: mr, BurnToken: "uusdc", DestinationCaller: mr}
+		bbz, _ := proto.Marshal(big1)
+		out = append(out, &c20case{Gen: gs(), Inputs: []c20input{
+			{Kind: "msg-l2", TypeURL: sdk.MsgTypeURL(ext), Hex: hex.EncodeToString(ebz), Note: "burn limit " + lv},
+			{Kind: "msg-l2", TypeURL: sdk.MsgTypeURL(one), Hex: hex.EncodeToString(obz), Note: "deposit of 1 under limit " + lv},
+			{Kind: "msg-l1", TypeURL: sdk.MsgTypeURL(big1), Hex: hex.EncodeToString(bbz), Note: "deposit of 2^256-1 under limit " + lv},
+			{Kind: "msg-l2", TypeURL: sdk.MsgTypeURL(big1), Hex: hex.EncodeToString(bbz), Note: "deposit of 2^256-1 under limit " + lv},
+		}})
+	}
 	// a genesis whose threshold makes 65*threshold wrap around 2^32: a 4-byte attestation then matches the length
 	g := types.DefaultGenesis()
 	g.Owner, g.AttesterManager, g.Pauser, g.TokenController = sim.Acct(0), sim.Acct(1), sim.Acct(2), sim.Acct(3)
